@@ -3,7 +3,7 @@ C10 shares the generator (see C10.py)."""
 import random, json
 from ..engine import simple_run
 from ..gen.exprs import Gen, BUILTINS
-from ..gen.common import gen_doc
+from ..gen.common import gen_doc, struct_field_names
 
 CORPUS = [
     ('a.b', {"a": [[[{"b": 1}]]]}), ('a.b[0]', {"a": [[[{"b": 1}]]]}), ('x[$$.idx]', {"x": [10, 20, 30], "idx": [0, 2]}), ('arr[o]', {"arr": [[1]]}),
@@ -17,6 +17,7 @@ CORPUS = [
     ('$power(-8, 1/3)', None), ('$sqrt(-1)', None), ('1/0', None), ('-1/0', None), ('0/0', None), ('$number("1e999")', None), ('[1..1e8]', None), ('$map([1,2], $map)', None),
     ('$reduce([1,2,3], $reduce)', None), ('$filter([1], $filter)', None), ('$sort([1,2], $sort)', None), ('$each({"a":1}, $each)', None), ('$sift({"a":1}, $sift)', None),
     ('$single([1], $single)', None), ('$map($map, $map)', None), ('null.a', {'a': 1}), ('a.null', {'a': 1}), ('$$.$$.$$', {'a': 1}), ('**.**.**', {'a': {'b': [1, {'c': 2}]}}),
+    ('a^(k)', {'a': [{'k': 1}, {}, {'k': 'x'}]}), ('a^(k)', {'a': [{'k': 'x'}, {}, {}, {'k': 1}]}), ('a^(>k)', {'a': [{'k': 1}, {'k': 'x'}, {}]}), ('a^(k, j)', {'a': [{'k': 1, 'j': 1}, {'k': 1}, {'k': 1, 'j': 'x'}]}),
     ('$ ~> |$|{"self": $}|', {'a': 1}), ('$ ~> |a|{"up": $$}|', {'a': {'b': 1}}),
     ('$fromMillis(0, "[ ]")', None), ('$fromMillis(0, "[Y]-[\t]")', None), ('$toMillis("2020", "[ ]")', None), ('$now("[  ]")', None), ('$fromMillis(0, "[Y,*-64]")', None), ('$fromMillis(0, "[")', None),
     ('(true ? $uppercase : $lowercase)()', 'x'), ('a.((b ? $substringAfter : $substringBefore)("-"))', {'a': 'p-q', 'b': True}),
@@ -39,6 +40,20 @@ def cases(tier, seed, chaos=0.25):
         e = g.program(rng.randint(1, 4))
         d = rng.choice(docs)
         add(e, d, ('chaotic' if i % 2 else 'directed', 'nulldoc' if d is None or (isinstance(d, dict) and None in d.values()) else 'plain'))
+    # functions used as data: a name step on a function value, for every identifier that is a struct field
+    # somewhere in the implementation (function values are Go structs), under every kind of consumer
+    fvals = ['$sum', 'function($x){$x}', 'function($x)<n:n>{$x}', '/a/', '$substring(?, 1)', '($string ~> $length)', '|a|{"z":1}|', '$f']
+    wraps = ['%s', '$string(%s)', '%s[0]', '$type(%s)', '%s.*', '$keys(%s)', '$count(%s)', '[%s]', '{"k": %s}', '%s = 1', '$reverse(%s)', '$distinct(%s)', '$append(%s, 1)', '%s ~> $string', '$exists(%s)', '%s.**', '$boolean(%s)', '%s & ""']
+    fields = struct_field_names()
+    for fv in fvals:
+        for nm in fields:
+            for w in (rng.sample(wraps, 3) if tier == 'quick' else wraps):
+                e = w % ('%s.%s' % (fv, nm))
+                if fv == '$f': e = '($f := $uppercase; %s)' % e
+                add(e, None, ('funcfield',))
+            if tier != 'quick' or rng.random() < 0.2:
+                add('$string(%s.%s.%s)' % (fv, nm, rng.choice(fields)), None, ('funcfield',))
+                add('[%s, %s].%s' % (fv, rng.choice(fvals[:7]), nm), None, ('funcfield',))
     # every built-in at every arity 0..4 with chaotic arguments
     atoms = ['1', '"s"', 'true', 'null', '[]', '[1,2]', '{}', '{"a":1}', '$sum', 'function($x){$x}', 'nothing', '/a/', '-1', '1e300', '""', '[[1]]', '["a","b"]', '$', 'a']
     for (name, rt, ats) in BUILTINS + [('error', 'x', ['s']), ('fromMillis', 's', ['n']), ('toMillis', 'n', ['s']), ('match', 'a', ['s', 'f']), ('encodeUrl', 's', ['s']), ('decodeUrl', 's', ['s'])]:
@@ -49,7 +64,7 @@ def cases(tier, seed, chaos=0.25):
 
 def run(tier, seed, replay=None):
     return simple_run('C09', tier, seed, replay,
-        'type-directed (chaos 3%) and type-chaotic (chaos 25%) programs of depth <= 4 over every node type and every built-in at arities 0..4 with arguments of every kind incl. functions used as data, '
+        'name steps on function values for every struct field identifier found in the implementation source x 18 consumers; type-directed (chaos 3%) and type-chaotic (chaos 25%) programs of depth <= 4 over every node type and every built-in at arities 0..4 with arguments of every kind incl. functions used as data, '
         'nested arrays, regexes, huge numbers; JSON inputs incl. nulls, empty containers and arrays nested in arrays; corpus of every quoted witness; sizes bounded; '
         'a panic or hang of the implementation is the violation; outcome classes are also compared with the model; distinct = distinct (expression, input)',
         cases, owner_direct=(), value_compare=False)
